@@ -353,6 +353,8 @@ def judge_kill(case: dict, out: Outcome, disk_class: str) -> list[core.Finding]:
             unusable = f'cached_tasks lists it {out.in_cached_tasks} times'
     elif out.is_cached is False and out.in_cached_tasks:
         findings.append(core.Finding(f'C13:{phase}:not-is_cached-but-listed-by-cached_tasks', f'disk={disk_class}'))
+    if out.is_cached is False and out.same_lab_is_cached is True:
+        findings.append(core.Finding(f'C13:{phase}:lab-whose-worker-was-killed-still-reports-the-removed-entry-cached', f'a new Lab: not cached; disk={disk_class} {out.disk}'))
     if unusable:
         if disk_class.startswith('metadata='):
             # the kill window the code has no protection for (no commit marker, no atomic rename): identified by what is on disk
